@@ -273,6 +273,11 @@ func replayC08(detail json.RawMessage) error {
 		return err
 	}
 	rs.Quiet(false)
+	var pc corsPairCase
+	if json.Unmarshal(detail, &pc) == nil && pc.First.Pred != "" {
+		fmt.Printf("first a filter %+v serves %v\n", pc.First, pc.Req)
+		corsBuild(pc.First, true).do(pc.Req)
+	}
 	got, twin := corsBuild(c.Cfg, true).do(c.Req), corsBuild(c.Cfg, false).do(c.Req)
 	fmt.Printf("cfg: %+v\nrequest: %v\nwith filter: %s\ntwin:        %s\n", c.Cfg, c.Req, got.key(), twin.key())
 	if why := judgeC08(c.Cfg, c.Req, got, twin); why != "" {
@@ -327,8 +332,35 @@ func corsRequests(origins []string) []h.Req {
 	return out
 }
 
+// corsPairCase: one filter accepted the origin (through its predicate) before another filter -
+// whose predicate refuses it - sees the same origin.
+type corsPairCase struct {
+	First corsCfg  `json:"first_filter"`
+	Cfg   corsCfg  `json:"cfg"`
+	Req   h.Req    `json:"req"`
+	Got   corsResp `json:"got"`
+}
+
 func checkC08(run *h.Run) {
 	rs.Quiet(false)
+	// before anything else has been served in this process: a filter that accepts an origin by
+	// predicate, then a second filter (another container) that must refuse the same origin
+	var pairCases int64
+	for _, jsr := range []bool{false, true} {
+		for _, m := range []string{"GET", "OPTIONS"} {
+			accepting := corsCfg{Pred: "e3", Cookies: true, Expose: []string{"X-E"}, JSR: jsr}
+			for _, refusing := range []corsCfg{{Pred: "none", Cookies: true, Expose: []string{"X-E"}, JSR: jsr}, {Domains: []string{corsE1}, Pred: "none", JSR: jsr}} {
+				q := h.Req{Method: m, Segs: []string{"u1"}, Hdr: [][2]string{{"Origin", corsE3}}}
+				corsBuild(accepting, true).do(q)
+				got, twin := corsBuild(refusing, true).do(q), corsBuild(refusing, false).do(q)
+				pairCases++
+				if why := judgeC08(refusing, q, got, twin); why != "" {
+					run.Violate("cors-after-another-filter", "", fmt.Sprintf("after a filter with predicate %q granted %s: %+v ; %v : %s", accepting.Pred, corsE3, refusing, q, why), corsPairCase{accepting, refusing, q, got}, nil)
+				}
+			}
+		}
+	}
+	run.Cov["second_filter_cases"] = pairCases
 	cfgs := corsCfgs(run.Tier)
 	reqs := corsRequests(corsOrigins())
 	var cases, granted, nontriv int64
@@ -374,6 +406,6 @@ func checkC08(run *h.Run) {
 	run.Cov["origins"] = len(corsOrigins())
 	run.Cov["distinct_outcomes"] = outcomes.Len()
 	run.Cov["exhaustive"] = true
-	run.Cov["rule"] = "E1: full product of filter configurations (allowed-domain lists x predicate x cookies x expose x max-age x filter position x router) x requests (GET/POST/OPTIONS/preflight/404/405 x origins derived from the entries by mutation operators: case variants, prefix/suffix/superstring near misses, regex-dot near miss, scheme swap, null, wildcard literals, absent); each request also goes to a filter-less twin. Non-trivial: the request carries an Origin."
+	run.Cov["rule"] = "E1: full product of filter configurations (allowed-domain lists x predicate x cookies x expose x max-age x filter position x router) x requests (GET/POST/OPTIONS/preflight/404/405 x origins derived from the entries by mutation operators: case variants, prefix/suffix/superstring near misses, regex-dot near miss, scheme swap, null, wildcard literals, absent); each request also goes to a filter-less twin; first of all, a filter whose predicate refuses an origin is used right after another filter accepted that origin by predicate. Non-trivial: the request carries an Origin."
 	run.Assume = []string{"allowed(origin) is the statement's rule transcribed", "preflight grant conditions are C09's; here only soundness of any grant and twin equality"}
 }
